@@ -1,3 +1,4 @@
+import Grexv.Lemmas.EndToEndRV
 import Grexv.Model.Api
 import Grexv.Lemmas.Lex
 import Grexv.Lemmas.EndToEnd
@@ -154,6 +155,15 @@ theorem output_valid_with_repetitions (cfg : Config) (hp : RepPrintNA cfg) (env 
     (hlen : ∀ w ∈ storedCases cfg env ws, (clusterOfPieces (env.segOf w)).length ≤ 1000) (hws : ws ≠ []) :
     ∃ P, Spec.parse (fmtRegExp cfg st.finalAst) = some (⟨cfg.ci, false⟩, P) :=
   rep_valid_na cfg hp env ws st h hseg
+    (fun w hw => by have := hlen w hw; rwa [clusterOfPieces_eq, List.length_map] at this) hws
+
+/-- **C07 (validity with repetition conversion in verbose mode, all inputs, any anchors)** whenever `RegExp::from` returns, the verbose
+text is accepted by the model of `Regex::new` under the `(?x)` / `(?ix)` flag it carries -/
+theorem output_valid_with_repetitions_verbose (cfg : Config) (hp : RepVerbose cfg) (env : Env) (ws : List Str) (st : Stages)
+    (h : regExpFrom cfg env ws = .ok st) (hseg : ∀ w ∈ storedCases cfg env ws, SegOK env w)
+    (hlen : ∀ w ∈ storedCases cfg env ws, (clusterOfPieces (env.segOf w)).length ≤ 1000) (hws : ws ≠ []) :
+    ∃ P, Spec.parse (fmtRegExp cfg st.finalAst) = some (⟨cfg.ci, true⟩, P) :=
+  rep_valid_verbose cfg hp env ws st h hseg
     (fun w hw => by have := hlen w hw; rwa [clusterOfPieces_eq, List.length_map] at this) hws
 
 example : RepPrintNA { rep := true, noStart := true, noEnd := true, ci := true, space := true } := ⟨rfl, by decide, rfl, rfl, rfl⟩
